@@ -210,6 +210,20 @@ def check(ctx):
         wh = [c for c in calls(f_, "where") if unparse(c.func) == "np.where"]
         ok = len(wh) == 1 and unparse(wh[0].args[0]) == "np.isnan(x)" and unparse(wh[0].args[1]) == ident_ and unparse(wh[0].args[2]) == "x"
         ctx.ob("ALG.nanarg-identity", f_, f"{fn}: NaNs are replaced by {ident_} (never selected unless everything is NaN)", ok, "" if ok else f"NaN is replaced by {unparse(wh[0].args[1]) if wh else None}: the NaN position wins the extremum")
+    # ---------------- topk / argtopk: k may exceed the axis
+    ck = model.module("dask/array/chunk.py")
+    at = ck.func("argtopk")
+    rs = returns(at)
+    ok = bool(rs) and all(isinstance(r.value, ast.Tuple) and len(r.value.elts) == 2 for r in rs) and not any(unparse(r.value) == "a_plus_idx" for r in rs)
+    early = [r for r in rs if any(unparse(e) == "abs(k) >= a.shape[axis]" and pol for e, pol in cfg_of(at).facts(r))]
+    ok = ok and len(early) == 1 and unparse(early[0].value) == "(a, idx)"
+    ctx.ob("SHAPE.argtopk.pair", at, "every exit of chunk.argtopk returns the (values, indices) pair; the k >= n exit returns the concatenated (a, idx)", ok, "" if ok else "the k >= n exit hands back its input, which is a LIST of pairs when several blocks were combined: argtopk_aggregate cannot unpack it")
+    for fn in ("topk", "argtopk"):
+        f = mod.func(fn)
+        rc = [c for c in calls(f, "reduction")]
+        osz = kwarg(rc[0], "output_size") if len(rc) == 1 else None
+        ok = osz is not None and unparse(osz) == "builtins.min(abs(k), a.shape[axis])"
+        ctx.ob("ALG.topk.output-size", f, f"{fn}: declared length along the axis is min(abs(k), a.shape[axis])", ok, "" if ok else "with abs(k) > n the declared shape is longer than the computed result")
 
 
 VARIANTS = [
